@@ -141,11 +141,10 @@ Proof.
   vm_compute. repeat split; try reflexivity. intros C. discriminate C.
 Qed.
 
-(* residual finding (not repaired by 0b05886): SCTE35.SetPTS stores s.pts un-truncated; with an over-wide argument PTS()
-   reports a value the next encoding cannot carry (the command's own pts_time is truncated) *)
+(* SCTE35.SetPTS with an over-wide argument (repaired by a397833; replay line of the `fixed` entry): PTS() and the command's
+   pts_time are both 5, and decoding the next encoding returns the struct itself *)
 Definition setpts_script : list sig_op := [SSetCommandInfo 1 [KSetHasPTS true]; SSetPTS 8589934597].
 Lemma w_set_pts_overwide :
   let st := run_script create_scte35 setpts_script in
-  s_pts st = 8589934597 /\ cmd_pts (s_cmd st) = 5 /\
-  exists sc, new_scte35 (0 :: fst (update_data st)) = Ok sc /\ s_pts sc = 5.
-Proof. vm_compute. repeat split. eexists. split; reflexivity. Qed.
+  s_pts st = 5 /\ cmd_pts (s_cmd st) = 5 /\ new_scte35 (0 :: fst (update_data st)) = Ok (snd (update_data st)).
+Proof. vm_compute. repeat split. Qed.
